@@ -24,7 +24,10 @@ def _vacuity(tot):
 
 
 def run(ctx):
+    from .. import oracle_selftest
+    st = oracle_selftest.run(ctx)
     rep = sweep.run_plan(ctx, PROP, plan(ctx), RULE, ASSUME, vacuity=_vacuity)
+    rep["coverage"]["reference_solver_self_check"] = st
     from . import boards_c01
     boards_c01.extend(ctx, rep)
     return rep
